@@ -246,6 +246,9 @@ TYPO_PARAS: list[tuple[str, list[str]]] = [
     ("quote-link", ["qaa", '"[qza', 'qzb](http://u/q\'s)"', "qab", "qac"]),
     ("quote-tag", ["qaa", '{% qza k="v..." %}', '"qab"', "qac", "qad"]),
     ("quote-em", ["qaa", '"*qab', 'qac*"', "qad", "qae"]),
+    ("empty-quotes", ["qaa", '""', "qab", "''", "qac", '("")', "qad", '"".']),
+    ("quote-single-char", ["qaa", '"x"', "'y'", '"qab"', "qac"]),
+    ("nested-quotes", ["qaa", "\"'qab'", 'qac"', "'\"qad\"'", "qae"]),
     ("dots-then-quote", ['qaa..."qab', 'qac"', "qad...'qae'", "qaf"]),
     ("quote-then-dots", ['"qaa"...qab', "'qac'...", "qad"]),
     ("ellipsis-char", ['qaa…"qab"', "qac…'qad'", "“qae”…"]),
